@@ -5,6 +5,7 @@ import Driver.Sched
 import Driver.Flow
 import Driver.Hpack
 import Driver.Frame
+import Driver.H2SM
 import FpVerif.Spec.JA3
 import FpVerif.Spec.Capture
 import FpVerif.Spec.H2Fp
@@ -252,6 +253,7 @@ def handle (cmd : String) (args : List String) : String :=
     | _, _ => "bad-op"
   | "flow", toks => (flowRun toks).getD "bad-op"
   | "sched", toks => (schedRun toks).getD "bad-op"
+  | "h2sm", toks => (smRun toks).getD "bad-op"
   | "h2conc", toks => (h2concCheck toks).getD "bad-op"
   | "h2fp", toks => (h2fpRun true toks).getD "bad-op"
   | "h2fpm", toks => (h2fpRun false toks).getD "bad-op"
